@@ -1,7 +1,10 @@
 (* C04 - a pre-terminal expands to exactly the product of its terminal groups.
    Property theorems only (proofs in ExpandProofs.v). *)
 From Coq Require Import List Arith NArith.
+From Coq Require Import ZArith.
 From Pcfg Require Import Expand ExpandProofs.
+From Pcfg Require Import KernelRt ExpandRt ExpandGenProofs.
+From PcfgGen Require Import Expand_gen.
 Import ListNotations.
 
 (* well-formed pre-terminal (every C_n follows an A_n, words and masks have n > 0
@@ -67,6 +70,96 @@ Theorem C04_example : expand up_ascii (fun _ => []) (flat_map slots_of segs_ex) 
                       Some (denote up_ascii segs_ex, 24).
 Proof. exact C04_example_product. Qed.
 
+(* ---- second tie to the source: gen/Expand_gen.v is the translation of the Python text
+   of omen_generate_guesses, _recursive_guesses and create_guesses
+   (harness/translate_expand.py, redone on every run).  It equals the model the theorems
+   above are about: for every upper_c, every grammar lookup gv (self.grammar[t][i]['values'],
+   None = KeyError / IndexError), every int() and MarkovCracker oracle, every parse tree
+   all of whose nodes resolve (variable name non-empty, group exists), every limit None / n >= 0,
+   and any fuel > len(pt).  The model's None (IndexError) is Exc LookupError.  should_exit
+   is False (nobody asked to quit). *)
+Theorem C04_source_recursive_guesses_is_model :
+  forall (upper_c : N -> pstr) (gv : pstr -> Z -> option (list pstr)) (py_int : pstr -> Z) (mcr : Z -> list pstr)
+         (pt : list pnode) (slots : list slot),
+  resolve gv pt = Some slots ->
+  forall (fuel : nat) (cur : str) (l : lim), length pt < fuel ->
+  py_recursive_guesses upper_c gv py_int mcr false fuel cur pt (zlim l) =
+  lift (expand upper_c (omen_of py_int mcr) slots cur l).
+Proof. exact recursive_guesses_eq. Qed.
+
+Theorem C04_source_create_guesses_is_model :
+  forall (upper_c : N -> pstr) (gv : pstr -> Z -> option (list pstr)) (py_int : pstr -> Z) (mcr : Z -> list pstr)
+         (honey : pstr -> list pnode -> option Z -> res (list pstr * Z))
+         (pt : list pnode) (slots : list slot) (fuel : nat) (l : lim),
+  resolve gv pt = Some slots -> length pt < fuel ->
+  py_create_guesses upper_c gv py_int mcr false honey fuel pt false (zlim l) =
+  lift (expand upper_c (omen_of py_int mcr) slots [] l).
+Proof. exact create_guesses_eq. Qed.
+
+Theorem C04_source_omen_generate_guesses_is_model :
+  forall (gs : list str) (l : lim),
+  py_omen_generate_guesses false gs (zlim l) = Ok (lim_take l gs, Z.of_nat (length (lim_take l gs))).
+Proof. exact omen_generate_guesses_eq. Qed.
+
+(* the fuel of the generated recursion (no counterpart in Python) is never exhausted:
+   for ALL inputs - any parse tree (resolvable or not), any limit (also negative ints),
+   any value of should_exit - len(pt) + 1 levels are enough *)
+Theorem C04_source_never_out_of_fuel :
+  forall (upper_c : N -> pstr) (gv : pstr -> Z -> option (list pstr)) (py_int : pstr -> Z) (mcr : Z -> list pstr)
+         (should_exit : bool) (pt : list pnode) (fuel : nat) (cur : pstr) (limit : option Z),
+  length pt < fuel ->
+  py_recursive_guesses upper_c gv py_int mcr should_exit fuel cur pt limit <> Exc OutOfFuel.
+Proof. exact recursive_guesses_never_out_of_fuel. Qed.
+
+Theorem C04_source_create_guesses_never_out_of_fuel :
+  forall (upper_c : N -> pstr) (gv : pstr -> Z -> option (list pstr)) (py_int : pstr -> Z) (mcr : Z -> list pstr)
+         (should_exit : bool) (honey : pstr -> list pnode -> option Z -> res (list pstr * Z))
+         (pt : list pnode) (fuel : nat) (limit : option Z),
+  length pt < fuel ->
+  py_create_guesses upper_c gv py_int mcr should_exit honey fuel pt false limit <> Exc OutOfFuel.
+Proof. exact create_guesses_never_out_of_fuel. Qed.
+
+(* the product theorem, the count and the Markov clause for the translated create_guesses *)
+Theorem C04_source_create_guesses_is_product :
+  forall (upper_c : N -> pstr) (gv : pstr -> Z -> option (list pstr)) (py_int : pstr -> Z) (mcr : Z -> list pstr)
+         (honey : pstr -> list pnode -> option Z -> res (list pstr * Z))
+         (segs : list seg) (pt : list pnode) (fuel : nat),
+  segs <> [] -> Forall seg_ok' segs ->
+  resolve gv pt = Some (flat_map slots_of segs) -> length pt < fuel ->
+  py_create_guesses upper_c gv py_int mcr false honey fuel pt false None =
+  Ok (denote upper_c segs, Z.of_nat (length (denote upper_c segs))).
+Proof. exact source_create_guesses_is_product. Qed.
+
+Theorem C04_source_count_is_lines :
+  forall (upper_c : N -> pstr) (gv : pstr -> Z -> option (list pstr)) (py_int : pstr -> Z) (mcr : Z -> list pstr)
+         (honey : pstr -> list pnode -> option Z -> res (list pstr * Z))
+         (pt : list pnode) (slots : list slot) (fuel : nat) (l : lim) (out : list pstr) (k : Z),
+  resolve gv pt = Some slots -> length pt < fuel ->
+  py_create_guesses upper_c gv py_int mcr false honey fuel pt false (zlim l) = Ok (out, k) ->
+  k = Z.of_nat (length out).
+Proof. exact source_create_guesses_count. Qed.
+
+Theorem C04_source_markov :
+  forall (upper_c : N -> pstr) (gv : pstr -> Z -> option (list pstr)) (py_int : pstr -> Z) (mcr : Z -> list pstr)
+         (honey : pstr -> list pnode -> option Z -> res (list pstr * Z))
+         (name : pstr) (idx : Z) (lv : pstr) (more : list pstr) (fuel : nat) (l : lim),
+  gv (77%N :: name) idx = Some (lv :: more) -> 1 < fuel ->
+  py_create_guesses upper_c gv py_int mcr false honey fuel [(77%N :: name, idx)] false (zlim l) =
+  Ok (lim_take l (mcr (py_int lv)), Z.of_nat (length (lim_take l (mcr (py_int lv))))).
+Proof. exact source_create_guesses_markov. Qed.
+
+(* non-vacuity: the example above as a parse tree over a four-variable grammar; the
+   hypotheses hold and the translated create_guesses computes the 24 guesses *)
+Theorem C04_source_example :
+  resolve gv_ex pt_ex = Some (flat_map slots_of segs_ex) /\
+  (segs_ex <> [] /\ Forall seg_ok' segs_ex /\ length pt_ex < 5) /\
+  py_create_guesses up_ascii gv_ex int_ex mcr_ex false honey_ex 5 pt_ex false None =
+    Ok (denote up_ascii segs_ex, 24%Z).
+Proof. exact (conj source_example_resolves (conj source_example_wellformed source_example_product)). Qed.
+
 Print Assumptions C04_expand_is_product.
 Print Assumptions C04_limit.
 Print Assumptions C04_count_is_lines.
+Print Assumptions C04_source_recursive_guesses_is_model.
+Print Assumptions C04_source_create_guesses_is_product.
+Print Assumptions C04_source_never_out_of_fuel.
